@@ -36,3 +36,12 @@ Theorem C19_any_of_one :
     exists a, any_tree [t] = Ok a /\ (sem orbit (encode a) w <-> sem orbit (encode t) w).
 Proof. exact any_of_one. Qed.
 Print Assumptions C19_any_of_one.
+
+From WaxModel Require Import Glob.
+From WaxProofs Require Import BuiltFacts.
+
+(* for every glob that builds - no hypothesis on bounds left: they are proved below 2^64 and ordered at every depth of a built
+   glob - re-annotating / re-owning the tree succeeds and changes annotations only *)
+Theorem C19_built_globs_are_reannotated_faithfully : forall e t r f, build e = BuildOk t r -> fold_map f t = Ok (respan f t).
+Proof. exact built_fold_map. Qed.
+Print Assumptions C19_built_globs_are_reannotated_faithfully.
